@@ -4,8 +4,8 @@
 // access probes used by the INSTRUMENTED copy of internal/rules/repository_impl.go
 // (property C07, stream "sched").  Injected with `go test -overlay`; not part of /repo.
 //
-// Without a controller the types behave exactly like the sync types they replace
-// (pass-through) and the probes are identities.  Under a Controller the goroutines
+// Without a controller the types behave like the sync types they replace (pass-through;
+// an acquisition that cannot succeed panics instead of hanging) and the probes are identities.  Under a Controller the goroutines
 // of a plan run ONE AT A TIME: a goroutine runs until it reaches a lock boundary
 // (Lock / RLock / Unlock / RUnlock) or the start of its next operation, parks there,
 // and the controller decides who goes next.  A schedule is the list of thread ids
@@ -24,6 +24,7 @@ import (
 	"runtime"
 	"sync"
 	"sync/atomic"
+	"time"
 	"unsafe"
 )
 
@@ -376,11 +377,32 @@ func lockOp(p unsafe.Pointer, k pendKind) bool {
 	return true
 }
 
+// Without a controller the build that uses this package runs the repository from ONE goroutine at a time (set-up,
+// final probes, the sequential oracle of the witness search).  A mutex that cannot be acquired then will never be
+// released: instead of hanging, the acquisition panics after a grace period (the operation is recorded as panicked).
+const selfDeadlockGrace = 300 * time.Millisecond
+
+func acquire(try func() bool, what string) {
+	if try() {
+		return
+	}
+
+	for start := time.Now(); time.Since(start) < selfDeadlockGrace; {
+		runtime.Gosched()
+
+		if try() {
+			return
+		}
+	}
+
+	panic("sched: " + what + " of a mutex that is never released (an earlier operation returned without unlocking it)")
+}
+
 type Mutex struct{ mu sync.Mutex }
 
 func (m *Mutex) Lock() {
 	if !lockOp(unsafe.Pointer(m), pLock) {
-		m.mu.Lock()
+		acquire(m.mu.TryLock, "Lock")
 	}
 }
 
@@ -402,7 +424,7 @@ type RWMutex struct{ mu sync.RWMutex }
 
 func (m *RWMutex) Lock() {
 	if !lockOp(unsafe.Pointer(m), pLock) {
-		m.mu.Lock()
+		acquire(m.mu.TryLock, "Lock")
 	}
 }
 
@@ -414,7 +436,7 @@ func (m *RWMutex) Unlock() {
 
 func (m *RWMutex) RLock() {
 	if !lockOp(unsafe.Pointer(m), pRLock) {
-		m.mu.RLock()
+		acquire(m.mu.TryRLock, "RLock")
 	}
 }
 
